@@ -4,7 +4,7 @@ Layer-tree model: the invariant is preserved by the primitive mutations
 -/
 import PsdVerif.Lemmas.TreeDesc
 
-namespace PsdVerif.Tree
+namespace PsdVerif.TreeSt
 
 theorem le_sum_of_mem (rk : Id → Nat) (l : List Id) (y : Id) (h : y ∈ l) : rk y ≤ (l.map rk).sum := by
   induction l with
@@ -377,4 +377,4 @@ theorem inv_alloc {s : State} (i : Inv s) (k : Kind) (p : Option Id) (b : BBox) 
   · obtain ⟨rk, hrk⟩ := i.acyclic
     exact ⟨rk, fun c x hx => hrk c x ((hE c x).mp hx)⟩
 
-end PsdVerif.Tree
+end PsdVerif.TreeSt
